@@ -100,10 +100,10 @@ def model(tier):
 
 
 def asis_model():
-    """documentation of the known finding on the MODEL: the reader as archive.go has it today (Tracks = FALSE)
-    violates InvClass; the counterexample is Remove(state.bin) on an archive whose state is empty."""
+    """documentation of the (meanwhile fixed) finding on the MODEL: the reader as archive.go had it before the fix
+    (Tracks = FALSE) violates InvClass; the counterexample is Remove(state.bin) on an archive whose state is empty."""
     r = vf.tlc("ArchiveMC", "Archive_asis.cfg", workers=2, timeout=600, quiet=True)
-    return {"violated": r.violated, "distinct": r.distinct, "note": "expected: InvClassMC violated by remove(state) with empty payload"}
+    return {"violated": r.violated, "distinct": r.distinct, "note": "reader model WITHOUT the member-seen check (pre-fix archive.go): expected InvClassMC violated by remove(state) with empty payload"}
 
 
 def tmp_root():
@@ -279,15 +279,20 @@ def pipeline(tier, scenarios, work, verdict, stats, *, bases=None, nrandom=0, en
     return meta, samples
 
 
-def vacuity(scenarios, stats):
+def vacuity(scenarios, stats, tier):
+    """every fault class of the spec must have been instantiated on real archives.  Quick runs only a
+    sample of the two-fault scenarios: there the classes that exist only after a first fault (regions of an
+    injected member, repair of a wrong digest) are reported, and required in the thorough tier."""
     want = {label(f) for s in scenarios for f in s["faults"]}
+    single = {label(f) for s in scenarios if len(s["faults"]) == 1 for f in s["faults"]}
     missing = sorted(l for l in want if stats["label_instances"].get(l, 0) == 0)
-    if missing:
-        raise vf.Infra("vacuity: fault classes of the spec never instantiated on real archives: %s" % missing)
+    hard = [l for l in missing if tier == "thorough" or l in single]
+    if hard:
+        raise vf.Infra("vacuity: fault classes of the spec never instantiated on real archives: %s" % hard)
     for cls in ("MustReject", "MustAcceptSame", "RejectOrSame"):
         if stats["by_class"][cls]["instances"] == 0:
             raise vf.Infra("vacuity: outcome class %s never instantiated" % cls)
-    return len(want)
+    return len(want), missing
 
 
 def run(tier):
@@ -302,7 +307,7 @@ def run(tier):
             # quick: every single-fault scenario, every third two-fault scenario (rotated by the seed); thorough: all
             scen = [s for i, s in enumerate(scen) if len(s["faults"]) < 2 or (i + vf.seed()) % 3 == 0]
         meta, samples = pipeline(tier, scen, work, verdict, stats, nrandom=(4000 if tier == "thorough" else 320))
-        nlabels = vacuity(scen, stats)
+        nlabels, not_inst = vacuity(scen, stats, tier)
         asis = asis_model() if tier == "thorough" else None
         n_new = verdict.finish()
         by_class = {k: dict(v) for k, v in stats["by_class"].items()}
@@ -322,7 +327,7 @@ def run(tier):
                             "the harness supplies exhaustive positions inside each region",
             "model_check": m["mc"], "generation": m["gen"], "asis_reader_model": asis,
             "per_class": by_class,
-            "fault_classes_in_spec": nlabels,
+            "fault_classes_in_spec": nlabels, "fault_classes_not_instantiated_in_this_sample": not_inst,
             "fault_class_instances": dict(stats["label_instances"]),
             "single_fault_regions": stats["single_fault_regions"],
             "restore_calls": stats["restore_calls"], "fsm_restore_invocations": stats["fsm_calls"],
